@@ -329,10 +329,9 @@ class LabelBase(INET):
         return INET.__eq__(self, other)
 
     def __hash__(self) -> int:
-        # _packed includes everything; use _has_addpath as discriminator
-        if self._has_addpath:
-            return hash(self._packed)
-        return hash(b'disabled' + self._packed)
+        # equal objects must have equal hashes: __eq__ compares index(), which leaves the label stack out,
+        # so the hash cannot be taken from _packed (two label stacks for one prefix were == with different hashes)
+        return hash(self.index())
 
     def __copy__(self) -> Self:
         new = self.__class__.__new__(self.__class__)
